@@ -43,3 +43,48 @@ harness! {
         }
     }
 }
+
+// ---- C11 acceptance, v2: the same two statements as board_harness.rs::c11_try_from_accepts_exactly_valid,
+// one per harness, with RawBoard::zobrist_hash imported (the stored hash plays no part in acceptance;
+// its 64 table lookups made the first form a 12-minute query) ----
+fn error_holds(raw: &RawBoard, e: &ValidateError) -> bool {
+    let white = raw.side == Color::White;
+    match e {
+        ValidateError::InvalidEnpassant(p) => raw.ep_source == Some(*p) && !rs::ref_ep_rank_ok(raw),
+        ValidateError::TooManyPieces(c) => rs::count_colour(&raw.cells, *c == Color::White) > 16,
+        ValidateError::NoKing(c) => rs::count_code(&raw.cells, rs::code(*c == Color::White, rs::KING)) == 0,
+        ValidateError::TooManyKings(c) => rs::count_code(&raw.cells, rs::code(*c == Color::White, rs::KING)) > 1,
+        ValidateError::InvalidPawn(p) => {
+            let i = p.index(); let c = rs::ci(raw.cells[i]);
+            (i < 8 || i >= 56) && (c == rs::code(true, rs::PAWN) || c == rs::code(false, rs::PAWN))
+        }
+        ValidateError::OpponentKingAttacked => rs::ref_attacked(&raw.cells, rs::king_sq(&raw.cells, !white), white),
+    }
+}
+harness! {
+    #[kani::unwind(66)]
+    #[kani::stub(crate::attack::rook, crate::verif_anyboard::stub_rook)]
+    #[kani::stub(crate::attack::bishop, crate::verif_anyboard::stub_bishop)]
+    #[kani::stub(crate::board::RawBoard::zobrist_hash, stub_zobrist_hash)]
+    fn c11_try_from_ok_iff_valid() {
+        let raw = ab::any_raw();
+        let res = Board::try_from(raw);
+        assert!(res.is_ok() == rs::ref_valid(&raw));
+        cover!(res.is_ok());
+        cover!(matches!(res, Err(ValidateError::OpponentKingAttacked)));
+    }
+}
+harness! {
+    #[kani::unwind(66)]
+    #[kani::stub(crate::attack::rook, crate::verif_anyboard::stub_rook)]
+    #[kani::stub(crate::attack::bishop, crate::verif_anyboard::stub_bishop)]
+    #[kani::stub(crate::board::RawBoard::zobrist_hash, stub_zobrist_hash)]
+    fn c11_try_from_error_is_true() {
+        let raw = ab::any_raw();
+        let res = Board::try_from(raw);
+        if let Err(e) = &res { assert!(error_holds(&raw, e)); }
+        cover!(matches!(res, Err(ValidateError::InvalidPawn(_))));
+        cover!(matches!(res, Err(ValidateError::TooManyKings(_))));
+        cover!(matches!(res, Err(ValidateError::InvalidEnpassant(_))));
+    }
+}
